@@ -25,14 +25,14 @@ def _e_fields(ln):
 
 # floors over the judged E scenarios of a full run, as (name, measure, floor per judged scenario); measured per scenario
 # (120-scenario runs, seeds 1, 2, 7, 12345, 987654321987): 1.95-2.55 / 0.69-0.74 / 0.83-1.24 / 0.29-0.38 / 0.32-0.40 /
-# 0.63-0.73
+# 0.63-0.73; fourth audit, 46 seeds: the minimum of mv was 0.57 (seed 113), hence its floor 0.25; minima over 65 further seeds (E-only sweep 100..164): 1.67 / 0.53 / 0.55 / 0.18 / 0.27 / 0.60 (115 seeds in all), every floor has >= 2x margin
 E_FLOORS = [
-    ("connections accepted on the shard-aware port", lambda ln, f: _sa(ln), 1.0),
-    ("scenarios with a starved shard (every port pre-bound, or none in the range)", lambda ln, f: 1 if _stat(ln, "starved") > 0 else 0, 0.30),
-    ("(node, shard) pairs with a pre-bound and a free port that got a shard-aware connection", lambda ln, f: _stat(ln, "mv"), 0.40),
-    ("scenarios whose range ends at 65535", lambda ln, f: 1 if f["hi"] == 65535 else 0, 0.10),
+    ("connections accepted on the shard-aware port", lambda ln, f: _sa(ln), 0.80),
+    ("scenarios with a starved shard (every port pre-bound, or none in the range)", lambda ln, f: 1 if _stat(ln, "starved") > 0 else 0, 0.25),
+    ("(node, shard) pairs with a pre-bound and a free port that got a shard-aware connection", lambda ln, f: _stat(ln, "mv"), 0.25),
+    ("scenarios whose range ends at 65535", lambda ln, f: 1 if f["hi"] == 65535 else 0, 0.08),
     ("scenarios whose range is shorter than nr_shards", lambda ln, f: 1 if f["hi"] - f["lo"] + 1 < f["n"] else 0, 0.10),
-    ("scenarios with pre-bound ports", lambda ln, f: 1 if " pre=- " not in ln else 0, 0.35),
+    ("scenarios with pre-bound ports", lambda ln, f: 1 if " pre=- " not in ln else 0, 0.28),
 ]
 
 
@@ -42,10 +42,11 @@ def _vstat(v, key):
 
 
 # floors on what the driver's RUN of the extracted connect loop (open_many) says about the judged scenarios, per scenario:
-# skp = shard-aware connections on shards with a held/busy port in their set (measured 0.85-1.25), pwr = expected number of
-# shards on which a loop that gives up at the first busy port opens fewer connections than the model (measured 0.43-0.68),
+# skp = shard-aware connections on shards with a held/busy port in their set (measured 0.85-1.25, minimum over 46 seeds 0.58),
+# pwr = expected number of shards on which a loop that gives up at the first busy port opens fewer connections than the model
+# (measured 0.43-0.68, minimum 0.29); both count only shards whose count interval is a point (not widened by busy=),
 # both from the driver's verdict line ("ok e2e cnt=exact pred=.. skp=.. pwr=<per mille>")
-V_FLOORS = [("skp", 1, 0.40), ("pwr", 1000, 0.20)]
+V_FLOORS = [("skp", 1, 0.25), ("pwr", 1000, 0.12)]
 
 
 def _post(lines, verdicts):
@@ -70,12 +71,22 @@ def _post(lines, verdicts):
     e = [ln for ln in lines if ln.startswith("E ")]
     if not e:
         return out
-    sk = [ln for ln in e if _skipped(ln)]
+    # not run: by the runner (`| not-run ...`) or by the driver (`ok not-run outside-busy-ports`: more than 4 ports of the
+    # range busy from outside)
+    ev = [(ln, v or "") for ln, v in zip(lines, verdicts) if ln.startswith("E ")]
+    sk = [(ln, v) for ln, v in ev if _skipped(ln) or v.startswith("ok not-run")]
     if len(sk) > max(3, len(e) // 20):
-        out.append(("diff", sk[0], "diff e2e tie not exercised: %d of %d scenarios were not run (%s)"
-                    % (len(sk), len(e), sk[0].split("|", 1)[1].strip())))
-    judged = [ln for ln in e if "| sa=" in ln]
-    vj = [v or "" for ln, v in zip(lines, verdicts) if ln.startswith("E ") and "| sa=" in ln]
+        out.append(("diff", sk[0][0][:300], "diff e2e tie not exercised: %d of %d scenarios were not run (%s)"
+                    % (len(sk), len(e), sk[0][1] or sk[0][0].split("|", 1)[1].strip())))
+    judged = [ln for ln, v in ev if "| sa=" in ln and not v.startswith("ok not-run")]
+    vj = [v for ln, v in ev if "| sa=" in ln and not v.startswith("ok not-run")]
+    # busy= widens the count interval of the affected shards (their connections do not count for skp / pwr): capped
+    wide = [ln for ln in judged if " busy=- " not in ln]
+    # (a single run: 0-3 %; runs started back to back reuse client addresses within the 60 s TIME_WAIT of the ~20 excess
+    # connections the driver dropped in the previous runs: up to 13 % measured in a sweep of 40 runs, 3 s apart)
+    if len(wide) > max(3, len(judged) // 4):
+        out.append(("diff", wide[0][:300], "diff e2e: %d of %d judged scenarios report ports busy from outside (cap max(3, 25 %%))"
+                    % (len(wide), len(judged))))
     off = [(ln, v) for ln, v in zip(lines, verdicts) if ln.startswith("E ") and v and v.startswith("ok e2e cnt=off")]
     if len(off) > max(2, len(judged) // 50):
         out.append(("diff", off[0][0][:300], "diff e2e connect-loop model: in %d of %d judged scenarios the number of shard-aware "
@@ -96,9 +107,11 @@ def _post(lines, verdicts):
 
 def _e2e_cov(lines, verdicts):
     e = [ln for ln in lines if ln.startswith("E ")]
-    judged = [ln for ln in e if "| sa=" in ln]
-    vj = [v or "" for ln, v in zip(lines, verdicts) if ln.startswith("E ") and "| sa=" in ln]
+    ev = [(ln, v or "") for ln, v in zip(lines, verdicts) if ln.startswith("E ")]
+    judged = [ln for ln, v in ev if "| sa=" in ln and not v.startswith("ok not-run")]
+    vj = [v for ln, v in ev if "| sa=" in ln and not v.startswith("ok not-run")]
     cov = {
+        "e2e_scenarios_not_judged_because_more_than_4_ports_were_busy_from_outside": sum(1 for ln, v in ev if v.startswith("ok not-run outside-busy-ports")),
         "e2e_scenarios_whose_connection_counts_equal_the_extracted_loop_model": sum(1 for v in vj if v.startswith("ok e2e cnt=exact")),
         "e2e_scenarios_whose_connection_counts_differ_from_the_model_tolerated": sum(1 for v in vj if v.startswith("ok e2e cnt=off")),
         "e2e_shard_aware_connections_the_model_opens": sum(_vstat(v, "pred") for v in vj),
@@ -106,7 +119,7 @@ def _e2e_cov(lines, verdicts):
         "e2e_expected_shards_off_for_a_loop_that_gives_up_at_the_first_busy_port": round(sum(_vstat(v, "pwr") for v in vj) / 1000, 1),
         "e2e_scenarios_with_ports_busy_from_outside": sum(1 for ln in judged if " busy=- " not in ln),
         "e2e_scenarios": len(e),
-        "e2e_scenarios_not_run": sum(1 for ln in e if _skipped(ln)),
+        "e2e_scenarios_not_run": sum(1 for ln, v in ev if _skipped(ln) or v.startswith("ok not-run")),
         "e2e_connections_accepted": sum(_stat(ln, "op") for ln in judged),
         "e2e_shard_aware_connections_checked": sum(_sa(ln) for ln in judged),
         "e2e_shard_aware_connections_closed_by_the_client": sum(_stat(ln, "cc") for ln in judged),
@@ -143,7 +156,8 @@ SPEC = {
              "node has its pool connections and the mock has accepted nothing for 120 ms, sends requests and reports every connection the mock "
              "accepted on the shard-aware port, the ports it holds and the ports it found busy from outside (probe by bind). The driver RUNS the "
              "extracted connect loop (open_many, some_pivot_gives) in the known environment and compares the number of shard-aware "
-             "connections per shard (cnt=exact / cnt=off, off tolerated in max(2, 2%) of the scenarios). "
+             "connections per shard (cnt=exact / cnt=off, off tolerated in max(2, 2%) of the scenarios; a scenario with more than 4 ports busy "
+             "from outside is not judged, scenarios with any such port are capped at max(3, 25%)). "
              "Non-trivial = every case except R cases with all three entries missing and E scenarios that were not run; "
              "distinct = distinct case lines"),
     "nontrivial": lambda ln: not ln.startswith("R N N N") and not _skipped(ln),
